@@ -20,14 +20,14 @@ pub fn def() -> PropDef {
     PropDef {
         id: "C13",
         level: "model_checking",
-        rule: "(a) every sequence of length <= d over {remote insert of an entry of a two-author universe, remove-and-recreate the document}; after the last step get_latest_for_each_author and has_news_for_us(h) for every peer report h in {absent,0,T1,T2,T3}^2 are compared with the heads of the reference replica; (b) AuthorHeads::encode/decode for every set of <= 4 authors with timestamps from {0,1,2,127,128,16383,16384} (equal timestamps included) under every size limit from 1 to unlimited length + 1 and without limit, plus one set of 200 heads (the length prefix of the encoding grows to two bytes at 128) under every limit in the window that keeps 120..136 heads; (c) the head set as a data structure: every sequence of <= 4 inserts over 3 authors x timestamps {0,1,2,u64::MAX}: get/len/iter equal the per-author maximum, and for every split of the sequence into two sets merge is the pointwise maximum, has_news_for counts exactly the strictly newer or unknown authors, encode/decode returns the set; (d) a neighbour's sync report delivered to an idle real LiveActor (on_actor_message -> on_sync_report) for 3 document states x {absent,0,T1,T2,T3}^2 reports x {synced, unsynced document} leads to a dial exactly when it is news; non-trivial (a) = the sequence holds two entries of one author with different timestamps or a removal after an insert, (b) = at least two authors",
+        rule: "(a) every sequence of length <= d over {remote insert of an entry of a two-author universe, remove-and-recreate the document, ask for the heads and a news verdict}; after the last step get_latest_for_each_author and has_news_for_us(h) for every peer report h in {absent,0,T1,T2,T3}^2 are compared with the heads of the reference replica; (b) AuthorHeads::encode/decode for every set of <= 4 authors with timestamps from {0,1,2,127,128,16383,16384} (equal timestamps included) under every size limit from 1 to unlimited length + 1 and without limit, plus one set of 200 heads (the length prefix of the encoding grows to two bytes at 128) under every limit in the window that keeps 120..136 heads; (c) the head set as a data structure: every sequence of <= 4 inserts over 3 authors x timestamps {0,1,2,u64::MAX}: get/len/iter equal the per-author maximum, and for every split of the sequence into two sets merge is the pointwise maximum, has_news_for counts exactly the strictly newer or unknown authors, encode/decode returns the set; (d) a neighbour's sync report delivered to an idle real LiveActor (on_actor_message -> on_sync_report) for 3 document states x {absent,0,T1,T2,T3}^2 reports x {synced, unsynced document} leads to a dial exactly when it is news; non-trivial (a) = the sequence holds two entries of one author with different timestamps or a removal after an insert, (b) = at least two authors",
         assumptions: &[
             "size limit 0 is excluded: no postcard sequence fits into zero bytes",
             "where several keys attain an author's maximal timestamp any of them is accepted as the head's key",
         ],
         bound: |t| match t {
-            Tier::Quick => json!({"a": "37-symbol alphabet (2 authors x {'',a,ab} x ts1..3 x {x,DEL} + recreate), depth <= 3", "b": "4166 head sets x all limits", "c": "12-symbol insert alphabet, depth <= 4, all splits"}),
-            Tier::Thorough => json!({"a": "37-symbol alphabet depth <= 3 plus 25-symbol alphabet (2 authors x {a,ab} x ts1..3 x {x,DEL} + recreate) depth 4", "b": "4166 head sets x all limits", "c": "12-symbol insert alphabet, depth <= 4, all splits"}),
+            Tier::Quick => json!({"a": "38-symbol alphabet (2 authors x {'',a,ab} x ts1..3 x {x,DEL} + recreate + ask), depth <= 3", "b": "4166 head sets x all limits", "c": "12-symbol insert alphabet, depth <= 4, all splits"}),
+            Tier::Thorough => json!({"a": "38-symbol alphabet depth <= 3 plus 26-symbol alphabet (2 authors x {a,ab} x ts1..3 x {x,DEL} + recreate + ask) depth 4", "b": "4166 head sets x all limits", "c": "12-symbol insert alphabet, depth <= 4, all splits"}),
         },
         run,
         replay,
@@ -39,6 +39,10 @@ pub fn def() -> PropDef {
 pub enum Op {
     Put(Spec),
     Recreate,
+    /// The questions the explorer asks at the end of a history, asked in the middle of it: the
+    /// heads and the news verdict on one report (a question is an operation too — it may leave
+    /// something behind in the store that a later answer is built from).
+    Ask,
 }
 
 impl std::fmt::Display for Op {
@@ -46,6 +50,7 @@ impl std::fmt::Display for Op {
         match self {
             Op::Put(s) => write!(f, "R({s})"),
             Op::Recreate => write!(f, "remove+recreate"),
+            Op::Ask => write!(f, "ask(heads, news)"),
         }
     }
 }
@@ -62,6 +67,7 @@ fn alphabet(keys: &[&[u8]]) -> Vec<Op> {
         }
     }
     v.push(Op::Recreate);
+    v.push(Op::Ask);
     v
 }
 
@@ -88,6 +94,13 @@ fn run_history(ops: &[Op]) -> (Vec<(&'static str, Value, String)>, String) {
                         format!("{op}: impl={got:?} model={want:?}"),
                     ));
                 }
+            }
+            Op::Ask => {
+                let _ = sut.heads(ns);
+                let mut heads = AuthorHeads::default();
+                heads.insert(author_id(0), T0 + 2);
+                heads.insert(author_id(1), T0 + 2);
+                let _ = sut.store.has_news_for_us(ns, &heads);
             }
             Op::Recreate => {
                 if let Err(e) = sut.store.remove_replica(&ns) {
@@ -555,6 +568,7 @@ fn run(ctx: &Ctx, report: &mut Report) {
                 report.max_depth = report.max_depth.max(ops.len() as u64);
                 let nt = ops.iter().enumerate().any(|(i, o)| match o {
                     Op::Recreate => i > 0,
+                    Op::Ask => false,
                     Op::Put(s) => ops[..i].iter().any(
                         |p| matches!(p, Op::Put(q) if q.author == s.author && q.ts != s.ts),
                     ),
